@@ -1575,7 +1575,9 @@ func (f *File) AddRetract(vi VersionInterval, rationale string) error {
 			com := Comment{Token: "// " + line}
 			r.Syntax.Comment().Before = append(r.Syntax.Comment().Before, com)
 		}
+		r.Rationale = rationale
 	}
+	f.Retract = append(f.Retract, r)
 	return nil
 }
 
